@@ -4,11 +4,12 @@ CONSTANTS
   Uris = {"u1"}
   Texts = {"t1"}
   MaxMsgs = 3
-  MsgKinds = {"open","close","cfg"}
-  MaxCfg = 1
-  MaxDisk = 1
-  OnDisk = {"u1"}
+  MsgKinds = {"open","change","close","save"}
+  MaxCfg = 0
+  MaxDisk = 0
+  OnDisk = {}
   InlineOpen = TRUE
   InlineChange = TRUE
   InlineClose = TRUE
+  EnableReindex = TRUE
 INVARIANTS Emit
